@@ -23,7 +23,7 @@ CLAIMED = {
              "pair rule and score count), and the refusal guards are characterised as iff; tie to the code: model run at exact Rat / Lean "
              "Float vs the implementation's reported extras, plus an independent Fraction/60-digit Decimal evaluation as property oracle.",
         note=NOTE + "Up-to-rounding means 1e-9*scale; IEEE rounding itself is outside the model. Known finding K2 (FMF constant) is printed, not alarmed.",
-        technique="Lean 4 theorems kernel = published formula (Finset sums, sup', Real.sqrt/log) + three-leg differential check (code / Lean model / exact Decimal)",
+        technique="Lean 4 theorems kernel = published formula (Finset sums, sup', Real.sqrt/log) + kernels regenerated from the source by an AST translator and proved equal to the model kernels + three-leg differential check (code / Lean model / exact Decimal)",
     ),
     "C06": dict(
         text="Proof: dominance monotonicity proved in Lean for the kernels of the model, any shape, positive weights, any objective mix: "
@@ -131,7 +131,7 @@ CLAIMED = {
              "and of ddof (the factor cancels); the weighter frame. Tie: three-leg check (code / Lean Float model / 50-digit Decimal oracle) "
              "and permuted presentations compared by label.",
         note=NOTE + "Perfectly correlated criteria make the CRITIC formula 0/0 (the code returns NaN): outside the formula's domain, excluded by a generator guard and stated as assumption.",
-        technique="Lean 4 theorems over R on the weighter kernels (Jensen, Cauchy-Schwarz, permutation invariance) + three-leg differential check",
+        technique="Lean 4 theorems over R on the weighter kernels (Jensen, Cauchy-Schwarz, permutation invariance) + equal/std kernels regenerated from the source by an AST translator and proved equal to the model kernels + three-leg differential check",
     ),
     "C15": dict(
         text="Proof: for the model of SimpleImputer every observed cell keeps its value, no cell is missing afterwards, shape unchanged, and each "
@@ -179,7 +179,7 @@ CLAIMED = {
              "added iff a zero) with the cell formula, and output column j depends only on input column j. Tie: three-leg check for every "
              "scaler x target x parameter setting.",
         note=NOTE + "scikit-learn scalers are external: their documented formulas are the model; degenerate columns follow sklearn's handling as modelled.",
-        technique="Lean 4 theorems over ordered fields / R on the scaler kernels + three-leg differential check (code / Lean model / exact Decimal)",
+        technique="Lean 4 theorems over ordered fields / R on the scaler kernels + kernels regenerated from the source by an AST translator and proved equal to the model kernels + three-leg differential check (code / Lean model / exact Decimal)",
     ),
     "C12": dict(
         text="Proof: every listed transformer is an order isomorphism per criterion in its stated sign domain (< iff <, = iff =); the inverters map "
